@@ -676,7 +676,10 @@ impl<'a, 'tcx> BodyCx<'a, 'tcx> {
                     vec![("k", s("ppath")), ("path", J::obj(self.res_json(res)))]
                 }
                 hir::PatExprKind::Lit { lit, negated } => {
-                    vec![("k", s("plit")), ("lit", s(format!("{}{:?}", if *negated { "-" } else { "" }, lit.node)))]
+                    let mut v = self.lit_json(lit);
+                    v[0] = ("k", s("plit"));
+                    v.push(("negated", J::Bool(*negated)));
+                    v
                 }
                 #[allow(unreachable_patterns)]
                 _ => vec![("k", s("pother"))],
